@@ -33,6 +33,7 @@ func c03SCIONWorld(r *simcore.Run) any {
 	if tp.Bool(1, 3, "small") {
 		srvOff = time.Duration(tp.Range(0, int64(time.Second), "srvoff2"))
 	}
+	scDrawFamily(r)
 	w := newSCIONWorld(r, srvOff, 1)
 	forwarder := tp.Bool(1, 3, "forwarder")
 	w.startServers(2, false, 0, nil, forwarder)
